@@ -163,14 +163,26 @@ def run(ctx, impl_only=False):
         for _ in range(ctx.rng.randint(1, 2)):
             j = ctx.rng.randint(len(t2) // 2, len(t2) - 1)
             t2[j] = ctx.rng.choice(['fifty', 55, 5.5, None, 'x', 7, 'line one\nline 2', 'p\nq', 'multi\nline\ntext'])
-        if ctx.rng.random() < 0.3:
+        r_ = ctx.rng.random()
+        if r_ < 0.3:
             pairs.append(({'rows': base, 'n': 1}, {'rows': t2, 'n': 1}))
+        elif r_ < 0.45:
+            pairs.append((tuple(base), tuple(t2)))                       # the same shift in a tuple, with no list above it
+        elif r_ < 0.55:
+            pairs.append(({'row': tuple(base)}, {'row': tuple(t2)}))
+        elif r_ < 0.6:
+            pairs.append(((tuple(base), 'z'), (tuple(t2), 'z')))
         else:
             pairs.append((base, t2))
     # inputs that share objects (one list at several positions of t1; t2 a shallow copy or a sub-object of t1)
     pairs += FAM.alias_pairs(ctx, max(12, n // 12))
     pairs += FAM.rich_pairs(ctx, n // 4)
     pairs += FAM.hostile_pairs(ctx, n // 4)
+    # keys the default configuration skips ('__...'), with and without the closing underscores: on both sides, one side, equal or changed values
+    DK = ['__all__', '__version__', '__ref', '__', 'a', '_p']
+    pairs += FAM.hostile_pairs(ctx, max(10, n // 12), keys=DK, alias=False)
+    pairs += [({'__version__': 1, 'a': 1}, {'__version__': 1, 'a': 1}), ({'__all__': ['x'], 'a': 1}, {'__all__': ['x'], 'a': 2}), ({'k': {'__v__': 1}}, {'k': {'__v__': 2}}),
+              ({'__ref': 1, '__all__': 2}, {'__ref': 1, '__all__': 2, 'b': 0}), ([{'__x__': 1}], [{'__x__': 1}, 2]), ({'__a__': 1}, {'__b__': 1})]
     # equal numbers written differently (Decimal exponents, int / float of one value inside one type) are not a change; keys that have no literal
     # form (UUID, frozenset, timedelta, non-finite float, a tuple holding a Decimal) give entries without a path, or with one that resolves
     import decimal as _dc, uuid as _uuid, datetime as _dtm
@@ -183,6 +195,11 @@ def run(ctx, impl_only=False):
         pairs.append(({'sessions': {k_: {'hits': [1, 2, 3]}, str(k_): {'hits': [0, 0, 8]}}}, {'sessions': {k_: {'hits': [1, 2, 4]}, str(k_): {'hits': [0, 0, 8]}}}))
         pairs.append(({k_: 1, 'a': 2}, {k_: 2, 'b': 2}))
         pairs.append(([{k_: [1]}, 0], [{k_: [1, 2]}, 0]))
+        # two lists under two such keys, one loses an item and the other gains one (F68): two locations, not one
+        k2_ = _uuid.UUID(int=7) if not isinstance(k_, _uuid.UUID) else frozenset({'q'})
+        pairs.append(({k_: [1, 2, 3], k2_: [4, 5]}, {k_: [1, 2], k2_: [4, 5, 6]}))
+        pairs.append(({'m': {k_: ['a', 'b'], k2_: ['c']}}, {'m': {k_: ['a'], k2_: ['c', 'd']}}))
+        pairs.append(([{k_: [1, 2, 3]}, {k_: [0]}], [{k_: [1, 2]}, {k_: [0, 1, 9]}]))
     # dictionary keys that a repr would escape (backslash, control and non-printing characters): the reported paths still lead to the values
     for k in ['C:\\temp\\new.txt', 'a\nb', 'tab\there', 'nb\xa0sp', 'back\\', "q'uote", 'a\\nb', '\x7f', 'é\u200b']:
         inner = ctx.rng.choice([lambda v: {'v': v}, lambda v: [0, v], lambda v: v])
@@ -210,6 +227,19 @@ def run(ctx, impl_only=False):
                     for cat in ('values_changed', 'type_changes'):
                         for lv in tr.get(cat, []):
                             t2paths[(cat, lv.path())] = lv.path(use_t2=True)
+                            if lv.path() is None:
+                                # a location without a string form still has a place in both inputs: the keys and indexes of the tree node lead to the two values
+                                ctx.count('pathless_entry_walked')
+                                for (root_, use2, want) in ((t1, False, lv.t1), (t2, True, lv.t2)):
+                                    try:
+                                        o_ = root_
+                                        for e_ in lv.path(use_t2=use2, output_format='list'):
+                                            o_ = o_[e_]
+                                    except Exception as e:
+                                        ctx.violate(case, '%s at a location without a string path: its keys %r do not lead anywhere in %s (%s)'
+                                                    % (cat, lv.path(use_t2=use2, output_format='list'), 't2' if use2 else 't1', type(e).__name__)); break
+                                    if not same(o_, want):
+                                        ctx.violate(case, '%s at a location without a string path: %s holds %r there, reported %r' % (cat, 't2' if use2 else 't1', o_, want)); break
             except Exception as e:
                 ctx.violate(case, 'DeepDiff raised %s' % type(e).__name__); continue
             k = check_entries(ctx, case, t1, t2, dd, vb, t2paths)
@@ -239,7 +269,12 @@ def run(ctx, impl_only=False):
         b = _dt.datetime(2021, 5, 6)
         d = DeepDiff([_dt.datetime(2020, 1, 1, 2, 3)], [b])
         return d['values_changed']['root[0]']['new_value'] == b
-    for fid, fn in {'F15': f15, 'F42': f42}.items():
+    def f68():
+        import uuid as _u
+        u1, u2 = _u.UUID(int=1), _u.UUID(int=2)
+        tr = DeepDiff({u1: [1, 2, 3], u2: [4, 5]}, {u1: [1, 2], u2: [4, 5, 6]}, view='tree')
+        return not tr.get('values_changed')
+    for fid, fn in {'F15': f15, 'F42': f42, 'F68': f68}.items():
         ctx.evaluations += 1
         ok = fn()
         if fid in findings:
